@@ -62,7 +62,19 @@ func setDurationField(field reflect.Value, fieldType reflect.Type, isPtr bool, v
 }
 
 // deserializeParams reads row 0 from a record batch into a Go struct.
-func deserializeParams(batch arrow.RecordBatch, target reflect.Type) (reflect.Value, error) {
+//
+// The batch comes from the client. The IPC reader checks its framing and
+// schema, not its contents: a dictionary index past the end of its dictionary,
+// or list offsets outside the child array, arrive here intact and make the
+// array accessors panic. Binding runs outside the handlers' recover (on the
+// pipe transports outside any), so such a panic is turned into the same error
+// every other unbindable batch gets.
+func deserializeParams(batch arrow.RecordBatch, target reflect.Type) (result reflect.Value, err error) {
+	defer func() {
+		if rv := recover(); rv != nil {
+			result, err = reflect.Value{}, fmt.Errorf("malformed parameter batch: %v", rv)
+		}
+	}()
 	if target.Kind() == reflect.Ptr {
 		target = target.Elem()
 	}
@@ -109,7 +121,7 @@ func deserializeParams(batch arrow.RecordBatch, target reflect.Type) (reflect.Va
 		)
 	}
 
-	result := reflect.New(target).Elem()
+	result = reflect.New(target).Elem()
 
 	for ord, fd := range desc.Fields {
 		info := fd.Info
